@@ -176,6 +176,29 @@ def run_seeded(c):
             deg = [int(d) for d in c["deg"]]
             A = Network.Configuration(deg)
             rec["A1"], rec["A0"] = enc.ints(A), []
+        elif k == "chain":
+            # a CHAIN of degree-preserving randomisations on ONE spatial network (ring + chords, so that a swap
+            # always exists): geographical model I or II, the global rewiring, a geographical model again
+            from pyunicorn.core import GeoGrid, GeoNetwork
+            n = c["n"]
+            A0 = np.zeros((n, n), dtype=int)
+            for i in range(n):
+                A0[i, (i + 1) % n] = A0[(i + 1) % n, i] = 1
+            for i in range(0, n - 3, 3):
+                A0[i, i + 3] = A0[i + 3, i] = 1
+            rec["A0"] = enc.ints(A0)
+            grid = GeoGrid(np.arange(2.0), np.linspace(-50.0, 50.0, n), np.linspace(-100.0, 100.0, n), silence_level=3)
+            net = GeoNetwork(grid, adjacency=A0.copy(), silence_level=3)
+            D = grid.distance()
+            order = [["I", "rw", "II"], ["II", "rw", "I"], ["rw", "I", "II"], ["I", "II", "rw"]][c["m"] % 4]
+            steps = []
+            for op in order:
+                if op == "rw":
+                    net.randomly_rewire(4)
+                else:
+                    getattr(net, "randomly_rewire_geomodel_" + op)(D, 2, 1.0e6)
+                steps.append(enc.ints(net.adjacency))
+            rec["steps"], rec["A1"] = steps, steps[-1]
         elif k == "WattsStrogatz":
             A = Network.WattsStrogatz(c["n"], c["m"], 0.3)
             rec["A1"], rec["A0"] = enc.ints(A), []
@@ -217,6 +240,7 @@ def run_seeded(c):
         rec.setdefault("A1", [])
     rec.setdefault("n1", 0)
     rec.setdefault("deg", [])
+    rec.setdefault("steps", [])
     return rec
 
 
@@ -264,7 +288,7 @@ def main(ctx):
                        ("BarabasiAlbert_igraph", 1 + j % 3), ("WattsStrogatz", 1 + j % 2),
                        ("ErdosRenyi_p0", 0), ("ErdosRenyi_p1", n * (n - 1) // 2),
                        ("Model_ErdosRenyi", [0, n * (n - 1) // 2, n][j % 3]), ("GeoModel_ErdosRenyi", n + j % 3),
-                       ("randomly_rewire", 5 + j), ("RandomlySetCrossLinks", 1 + j % 4),
+                       ("randomly_rewire", 5 + j), ("chain", j), ("RandomlySetCrossLinks", 1 + j % 4),
                        ("RandomlySetCrossLinks_sparse", 1 + j % 4), ("set_random_links_by_distance", 0)):
             mode = ["count", "density", "null", "count0", "density0"][j % 5] if gen.startswith("RandomlySetCross") else "count"
             dens = [(1, 4), (1, 2), (1, 1)][j % 3] if mode == "density" else (0, 1)
